@@ -233,6 +233,9 @@ extern "C" {
                         switch (result)
                         {
                             case sqf::runtime::runtime::result::ok:
+                            // The run was ended before the code completed (maximum runtime reached, exit requested):
+                            // that is no successful execution.
+                            return result_failed;
                             case sqf::runtime::runtime::result::empty:
                             return result_ok;
 
@@ -261,6 +264,9 @@ extern "C" {
                         switch (result)
                         {
                             case sqf::runtime::runtime::result::ok:
+                            // The run was ended before the code completed (maximum runtime reached, exit requested):
+                            // that is no successful execution.
+                            return result_failed;
                             case sqf::runtime::runtime::result::empty:
                             return result_ok;
 
@@ -291,6 +297,9 @@ extern "C" {
                         switch (result)
                         {
                             case sqf::runtime::runtime::result::ok:
+                            // The run was ended before the code completed (maximum runtime reached, exit requested):
+                            // that is no successful execution.
+                            return result_failed;
                             case sqf::runtime::runtime::result::empty:
                             return result_ok;
 
